@@ -477,4 +477,52 @@ def opsC64 : DropOps (Cx Float) Float Float :=
     isZero := fun t => t.re == 0.0 && t.im == 0.0
     negCount := fun k => -(Float.ofNat k) }
 
+
+/-- `ilu_cdrop_row` (single complex).  Where C promotes to `double` the model goes through `Float`:
+`scasum_` adds `(double)stemp + dabs(re) + dabs(im)` in double and rounds to float once per entry (CBLAS/scasum.c:36-39),
+`icamax_` compares the DOUBLE sum `dabs(re) + dabs(im)` with the float `smax` (CBLAS/icamax.c:34-43), `c_abs1` adds in
+float (scomplex.c:84-93), `omega`, `* fill_tol` and `* (1.0 + c_abs1(t))` are double expressions rounded on assignment. -/
+def opsC32 : DropOps (Cx Float32) Float32 Float :=
+  let cabD (z : Cx Float32) : Float := (f2cAbs z.re).toFloat + (f2cAbs z.im).toFloat
+  { rowNorm := fun nrm x => match nrm with
+      | .one =>
+        let sm : Float32 := x.foldl (fun (acc : Float32) v => ((acc.toFloat + (f2cAbs v.re).toFloat) + (f2cAbs v.im).toFloat).toFloat32) 0
+        (sm.toFloat / x.size.toFloat).toFloat32
+      | .two =>
+        let nr : Float32 := if x.size = 0 then 0 else (let ss := cnrm2Loop x; (ss.1.toFloat * Float.sqrt ss.2.toFloat).toFloat32)
+        (nr.toFloat / Float.sqrt x.size.toFloat).toFloat32
+      | .inf =>
+        let k : Nat := if x.size ≤ 1 then 0 else
+          ((List.range (x.size - 1)).foldl (fun (acc : Nat × Float32) t =>
+            let i := t + 1
+            if cabD x[i]! ≤ acc.2.toFloat then acc else (i, (cabD x[i]!).toFloat32)) (0, (cabD x[0]!).toFloat32)).1
+        Mag.abs1 x[k]!
+    add := fun y x => ⟨y.re + (1.0 * x.re - 0.0 * x.im), y.im + (1.0 * x.im + 0.0 * x.re)⟩
+    addAbs := fun y x => ⟨y.re + Mag.abs1 x, y.im⟩
+    absK := fun x => ⟨Mag.abs1 x, 0.0⟩
+    ltTol := fun a b => a.toFloat < b
+    leTol := fun a b => a.toFloat ≤ b
+    tolOfR := fun a => a.toFloat
+    zeroR := 0.0
+    oneR := 1.0
+    interp := opsF32.interp
+    diagComp := fun milu alpha fillTol d t =>
+      let a1 : Float32 := Mag.abs1 t
+      let w : Float := 2.0 * (1.0 - alpha.toFloat) / a1.toFloat
+      let omega : Float32 := (if w < 1.0 then w else 1.0).toFloat32
+      let t : Cx Float32 := ⟨t.re * omega, t.im * omega⟩
+      let t1 : Cx Float32 := ⟨t.re + 1.0, t.im + 0.0⟩
+      let zz : Cx Float32 := ⟨d.re * t1.re - d.im * t1.im, d.im * t1.re + d.re * t1.im⟩
+      match milu with
+      | .smilu1 => if !(t.re == -1.0 && t.im == 0.0) then (zz, false)
+                   else (⟨(d.re.toFloat * fillTol).toFloat32, (d.im.toFloat * fillTol).toFloat32⟩, true)
+      | .smilu2 =>
+        let a2 : Float32 := Mag.abs1 t
+        let f : Float := 1.0 + a2.toFloat
+        (⟨(d.re.toFloat * f).toFloat32, (d.im.toFloat * f).toFloat32⟩, false)
+      | .smilu3 => (zz, false)
+      | .silu => (d, false)
+    isZero := fun t => t.re == 0.0 && t.im == 0.0
+    negCount := fun k => -(Float.ofNat k) }
+
 end Slu.IluDrop
